@@ -10,7 +10,7 @@ import httpx
 from .e2e import generate_client
 
 SCHEMA = "type Query { q(a: Int): String  n: Int }\n"
-QUERY = "query GetQ($a: Int) { q(a: $a) }"
+QUERY = "query GetQ($a: Int) { q(a: $a) } query Cond($c: Boolean!) { q @include(if: $c) n @skip(if: $c) }"
 
 SCHEMA_SHORT = "type U { id: ID! fullName: String }\ntype Query { currentUser: U  n: Int }\n"
 QUERIES_SHORT = "query GetCurrentUser { currentUser { id fullName } } query GetAlias { theUser: currentUser { id } } query GetPlain { n }"
@@ -101,6 +101,21 @@ def bounded_outcomes(tier, seed):
                 bad = _drive(g, async_, tracer, label, status, body, expected)
                 if bad:
                     fails.append(dict(inputs=dict(scenario=f"{name}:{label}"), failed=bad, outcome=None))
+            # `the validated model of exactly that data`: a null data member is not an object with every field absent
+            for label, body in (("data-null", {"data": None}), ("data-null-empty-errors", {"data": None, "errors": []})):
+                cases += 1
+                mod = g.module()
+                handler = lambda request, _b=body: httpx.Response(200, json=_b)      # noqa: E731
+                try:
+                    if async_:
+                        out = asyncio.run(mod.Client(url="http://x/graphql", http_client=httpx.AsyncClient(transport=httpx.MockTransport(handler))).cond(c=True))
+                    else:
+                        out = mod.Client(url="http://x/graphql", http_client=httpx.Client(transport=httpx.MockTransport(handler))).cond(c=True)
+                    if out is not None:
+                        fails.append(dict(inputs=dict(scenario=f"{name}:all-conditional-operation:{label}"), failed=[f"a model was made up for a null data member: {out!r}"], outcome=None))
+                except Exception as e:      # noqa
+                    if type(e).__name__ != "ValidationError":
+                        fails.append(dict(inputs=dict(scenario=f"{name}:all-conditional-operation:{label}"), failed=[f"outcome other:{type(e).__name__}"], outcome=None))
         except Exception as e:      # noqa
             fails.append(dict(inputs=dict(scenario=f"{name}:generation"), failed=["generation"], outcome=f"{type(e).__name__}: {str(e)[:200]}"))
         finally:
